@@ -75,11 +75,9 @@ func runRR(raw json.RawMessage) (interface{}, error) {
 	}
 	start, _ := strconv.ParseUint(in.Start, 10, 64)
 	route.VerifC04SetTotal(r, start)
-	req := request(in.Src)
 	picks := make([]int, 0, in.K)
 	for j := 0; j < in.K; j++ {
-		tg := t.Lookup(req, "", route.Picker["rr"], route.Matcher["prefix"], globCache, false)
-		picks = append(picks, targetIndex(r, tg))
+		picks = append(picks, targetIndex(r, in.lookup(t, "rr")))
 	}
 	out := routeOut(r)
 	out["picks"] = picks
@@ -125,15 +123,13 @@ func runRnd(raw json.RawMessage) (interface{}, error) {
 		return v
 	})
 	defer restore()
-	req := request(in.Src)
 	lookups := len(in.Rands)
 	if in.Sweep {
 		lookups = 1
 	}
 	picks := make([]int, 0, lookups)
 	for l := 0; l < lookups; l++ {
-		tg := t.Lookup(req, "", route.Picker["rnd"], route.Matcher["prefix"], globCache, false)
-		picks = append(picks, targetIndex(r, tg))
+		picks = append(picks, targetIndex(r, in.lookup(t, "rnd")))
 		if in.Sweep && l == 0 && len(asked) > 0 && asked[0] > 1 && asked[0] <= 200000 {
 			lookups = asked[0] // one lookup per value of the range the picker asked for
 		}
@@ -276,7 +272,7 @@ func init() {
 		Gen: func(r *hx.Rand, i int) interface{} {
 			text := r.Chance(1, 2)
 			ds, src := genScript(r, text)
-			in := scriptIn{Defs: ds, Text: text, Src: src}
+			in := scriptIn{Defs: ds, Text: text, Src: src, Entry: genEntry(r, src)}
 			// N is at most 10000 + #targets; mostly 2N+k lookups, sometimes fewer than a cycle
 			switch r.Intn(4) {
 			case 0:
@@ -305,7 +301,7 @@ func init() {
 		Gen: func(r *hx.Rand, i int) interface{} {
 			text := r.Chance(1, 2)
 			ds, src := genScript(r, text)
-			in := scriptIn{Defs: ds, Text: text, Src: src}
+			in := scriptIn{Defs: ds, Text: text, Src: src, Entry: genEntry(r, src)}
 			if r.Chance(1, 5) {
 				in.Sweep = true
 				return in
